@@ -112,6 +112,10 @@ struct Rule {
     /// reference output (valid up to where the reference decoder got)
     ref_out: Vec<u8>,
     ref_ok: bool,
+    /// output lengths at those symbol boundaries of the reference decoding at
+    /// which all input is consumed and the code register is 0 (the only places
+    /// where the lenient marker-less success is legitimate)
+    ref_bounds: Vec<u32>,
 }
 
 fn rules(sc: &Scenario) -> Option<Rule> {
@@ -124,6 +128,7 @@ fn rules(sc: &Scenario) -> Option<Rule> {
             must_reject: Some("input ends inside the header"),
             ref_out: Vec::new(),
             ref_ok: false,
+            ref_bounds: Vec::new(),
         });
     }
     let props = Props::from_byte(input[0])?;
@@ -143,6 +148,7 @@ fn rules(sc: &Scenario) -> Option<Rule> {
     };
     let payload = &input[hl..];
     let mut d = RefDec::new(props, dict);
+    d.keep_trace = true;
     let r = d.decode_segment(payload, size, true);
     let mut must_reject = None;
     let mut ref_ok = false;
@@ -172,11 +178,19 @@ fn rules(sc: &Scenario) -> Option<Rule> {
         }
         _ => {}
     }
+    let ref_bounds = d
+        .trace
+        .iter()
+        .zip(d.codes.iter())
+        .filter(|(r, c)| r.kind != 4 && **c == 0 && r.consumed as usize == payload.len())
+        .map(|(r, _)| r.produced)
+        .collect();
     Some(Rule {
         size,
         must_reject,
         ref_out: d.model.out,
         ref_ok,
+        ref_bounds,
     })
 }
 
@@ -252,9 +266,12 @@ fn exec(sc: &Scenario, ctx: &mut Ctx) -> Vec<Violation> {
                     return mk("wrong_bytes_on_success", "output differs from the reference decoding".into());
                 }
             } else {
-                let on_boundary = got.is_empty() || sc.l("boundaries").contains(&(got.len() as u64));
-                let model = sc.b("model");
-                let is_prefix = got.len() <= model.len() && got[..] == model[..got.len()];
+                // the bytes (possibly cut or extended) decode, symbol by symbol, to
+                // rule.ref_out until the input runs out; lenient success must stop at
+                // one of those symbol boundaries
+                let on_boundary = rule.ref_bounds.contains(&(got.len() as u32))
+                    || (got.is_empty() && payload_is_bare_preamble(sc));
+                let is_prefix = got.len() <= rule.ref_out.len() && got[..] == rule.ref_out[..got.len()];
                 if !(on_boundary && is_prefix) {
                     return mk(
                         "accepts_without_marker",
@@ -286,3 +303,11 @@ pub static C08: SimpleProp = SimpleProp {
     exec,
     enumerate: None,
 };
+
+/// exactly the 5-byte preamble with code 0 and nothing decoded yet
+fn payload_is_bare_preamble(sc: &Scenario) -> bool {
+    let opts = OptSpec::load(sc);
+    let input = sc.b("input");
+    let hl = opts.header_len();
+    input.len() == hl + 5 && input[hl + 1..hl + 5] == [0, 0, 0, 0]
+}
